@@ -2516,7 +2516,9 @@ class Deb822DuplicateFieldsParagraphElement(Deb822ParagraphElement):
         if replace_all and len(original_nodes) != 1:
             # If we were in a replace-all mode, discard any remaining nodes
             for n in original_nodes[1:]:
-                n.value.parent_element = None
+                if n.value is not value:
+                    # (the new value may be one of the later occurrences)
+                    n.value.parent_element = None
                 self._kvpair_order.remove_node(n)
 
     def remove_kvpair_element(self, key):
